@@ -612,3 +612,32 @@ mutant('C18', 'export-mapping-driving-uses-torque-unit', EXP, "        'driving 
 mutant('C18', 'export-with-index', EXP, "    data.to_csv(file_path, index=False)", "    data.to_csv(file_path)", 'C18.export')
 mutant('C18', 'export-time-raw', EXP, "instant.to(time_unit).value for instant in time_array", "instant.value for instant in time_array", 'C18.export')
 benign('C18', 'pwm-guard-merged', PT, "                if 'pwm' in variables:\n                    interpolation_function = interp1d(\n                        x=[instant.to('sec').value for instant in self.time],\n                        y=element.time_variables['pwm']\n                    )", "                if 'pwm' in variables and True:\n                    interpolation_function = interp1d(\n                        x=[instant.to('sec').value for instant in self.time],\n                        y=element.time_variables['pwm']\n                    )")
+
+RUTIL = 'gearpy/motor_control/rules/utils.py'
+# ------------------------------------------------------------------------------------------ C07
+mutant('C07', 'motor-torque-value-in-Nm', DC, """value=(1 - self.angular_speed/no_load_speed)*maximum_torque.value,
+            unit=self.maximum_torque.unit""", """value=(1 - self.angular_speed/no_load_speed)*maximum_torque.to('Nm').value,
+            unit=self.maximum_torque.unit""", 'C07.raw')
+mutant('C07', 'motor-speed-ratio-raw', DC, "value=(1 - self.angular_speed /\n                       self.no_load_speed)*self.maximum_torque.value", "value=(1 - self.angular_speed.value /\n                       self.no_load_speed.value)*self.maximum_torque.value", 'C07.raw')
+mutant('C07', 'contact-stress-raw-moduli', SG, "        equivalent_elastic_modulus = \\\n            2*self.elastic_modulus*(\n                mate_elastic_modulus /\n                (self.elastic_modulus + mate_elastic_modulus)\n            )", "        equivalent_elastic_modulus = Stress(\n            2*self.elastic_modulus.value*mate_elastic_modulus.value /\n            (self.elastic_modulus + mate_elastic_modulus).value,\n            self.elastic_modulus.unit\n        )", 'C07.raw')
+mutant('C07', 'helix-limit-compared-raw', WG, "        if helix_angle > maximum_helix_angle:", "        if helix_angle.value > maximum_helix_angle.value:", 'C07.raw')
+mutant('C07', 'module-compared-raw', RL, "        if master.module != slave.module:", "        if master.module.value != slave.module.value:", 'C07.raw')
+mutant('C07', 'helix-angles-compared-raw', RL, "            if master.helix_angle != slave.helix_angle:", "            if master.helix_angle.value != slave.helix_angle.value:", 'C07.raw')
+mutant('C07', 'limit-ratio-raw', SLC, "        electric_ratio = self.__limit_electric_current/maximum_electric_current", "        electric_ratio = self.__limit_electric_current.value/maximum_electric_current.value", 'C07.raw')
+mutant('C07', 'static-error-raw-torques', RUTIL, "            (load_torque/maximum_torque)/powertrain_efficiency", "            (load_torque.value/maximum_torque.value)/powertrain_efficiency", 'C07.raw')
+mutant('C07', 'instant-from-raw-values', SV, "                initial_time + k*time_discretization\n", "                Time(value=initial_time.value + k*time_discretization.value, unit=time_discretization.unit)\n", 'C07.raw')
+mutant('C07', 'inertia-sum-raw', SV, "            self.__powertrain_inertia_moment += element.inertia_moment\n", "            self.__powertrain_inertia_moment = InertiaMoment(\n                self.__powertrain_inertia_moment.value + element.inertia_moment.value,\n                self.__powertrain_inertia_moment.unit)\n", 'C07.raw')
+mutant('C07', 'step-count-raw', SV, "        simulation_steps = round(simulation_time/time_discretization)", "        simulation_steps = round(simulation_time.value/time_discretization.value)", 'C07.raw')
+mutant('C07', 'pressure-angle-exact-lookup (pre-fix shape)', MB, """            WORM_GEAR_AND_WHEEL_DATA.loc[
+                WORM_GEAR_AND_WHEEL_AVAILABLE_PRESSURE_ANGLES.index(
+                    pressure_angle
+                ),
+                'Maximum Helix Angle'
+            ]""", """            WORM_GEAR_AND_WHEEL_DATA.set_index('Pressure Angle').loc[
+                pressure_angle.to('deg').value,
+                'Maximum Helix Angle'
+            ]""", 'C07.exact-key')
+mutant('C07', 'table-gcm2', UN, "'gcm^2': 1e-7,", "'gcm^2': 1e-6,", 'C07.dep.table')
+mutant('C07', 'timer-duration-raw', TM, "((current_time - self.start_time) <= self.duration)", "((current_time - self.start_time).value <= self.duration.value)", 'C07.raw')
+benign('C07', 'sign-test-on-raw-value', DC, "        if no_load_speed.value <= 0:", "        if no_load_speed.to('rad/s').value <= 0:")
+benign('C07', 'explicit-SI-conversion', SG, "contact_pressure.to('Pa').value", "contact_pressure.to('MPa').value*1e6")
